@@ -42,7 +42,7 @@ def deg(k, norm=False):
 SAME_DEGREE = {"numpy.sum", "numpy.max", "numpy.min", "numpy.mean", "numpy.median", "numpy.percentile", "numpy.quantile", "numpy.cumsum", "numpy.abs", "numpy.asarray",
                "numpy.array", "numpy.copy", "numpy.amax", "numpy.amin", "numpy.sort", "numpy.squeeze", "numpy.atleast_1d", "numpy.nan_to_num", "numpy.trace", "numpy.diag",
                "numpy.average", "builtins.sum", "builtins.max", "builtins.min", "builtins.abs", "builtins.float", "numpy.float64", "numpy.transpose", "numpy.ravel"}
-DEGREE_ZERO = {"numpy.linspace", "numpy.arange", "builtins.len", "builtins.range", "numpy.ones", "numpy.zeros", "numpy.eye", "numpy.empty", "numpy.full", "numpy.ones_like",
+DEGREE_ZERO = {"numpy.linspace", "numpy.arange", "builtins.len", "builtins.range", "numpy.ones", "numpy.zeros", "numpy.eye", "numpy.empty", "numpy.ones_like",
                "numpy.zeros_like", "numpy.linalg.matrix_rank", "numpy.isfinite", "numpy.isinf", "numpy.isnan", "numpy.argsort", "numpy.argmax", "numpy.argmin", "numpy.where",
                "numpy.any", "numpy.all", "numpy.shape", "numpy.size", "builtins.int", "builtins.isinstance", "builtins.print"}
 
@@ -314,6 +314,14 @@ class DegreeInterp:
             if m in ("dot",):
                 if base.kind == "deg" and args and args[0].kind == "deg":
                     return self._note(e, deg(base.k + args[0].k))
+        if name == "numpy.full_like" and len(e.args) >= 2 and args:
+            fill = e.args[1]
+            ftxt = norm_text(fill).lstrip("-")
+            if ftxt in ("np.inf", "numpy.inf", "inf", "0", "0.0", "np.nan", "float('inf')", "math.inf"):
+                return deg(args[0].k) if args[0].kind == "deg" else args[0]  # 0 / inf / nan are homogeneous of every degree
+            return args[1]
+        if name == "numpy.full" and len(args) >= 2:
+            return args[1]
         if name in SAME_DEGREE and args:
             a = args[0]
             return deg(a.k) if a.kind == "deg" else a
